@@ -170,8 +170,8 @@ void Server::Impl::onTcpReceived(const TcpServer::ConnToken &ct, Buffer &buff)
                 //! 标记当前请求为close请求
                 conn->close_index = conn->req_index;
                 LogDbg("mark close at %d", conn->close_index);
-
-                tcp_server_.shutdown(ct, SHUT_RD);
+                //! 注意：这里不能 shutdown(SHUT_RD)。否则下一轮读到0字节，连接被当成对端关闭而销毁，
+                //! 尚未完成的请求（包括本请求）的回复就再也发不出去了。之后收到的数据由上面的 close_index 判断丢弃
             }
 
             auto sp_ctx = make_shared<Context>(wp_parent_, ct, conn->req_index++, req);
